@@ -10,6 +10,7 @@ The code deviates in six classes, each with a kernel-checked witness below:
     NilAtCycle (DESIGN §7 #19), HasQuoted (#32), DupNames, Dangling, WrongComponent, RecContainer (round 3).
 -/
 import KinModel.Lemmas.C18Fin
+import KinModel.Gen.GenKinds
 namespace KinModel.Gen3
 
 /-- The executable oracle used by the driver is the specification: `acceptB` decides `Sat`. -/
@@ -123,6 +124,31 @@ finding F-C18-6, witness below). No hypothesis on the declarations: cyclic, mutu
 theorem gen_finite (Δ : Decls) (o : Opts) (t : GoType) (fuel : Nat) (h : enoughFuel Δ t ≤ fuel) :
     (genRoot Δ o fuel t).1 ≠ .nofuel ∧ (¬ RecContainer Δ t → (genRoot Δ o fuel t).1 ≠ .diverge) :=
   ⟨gen_enough_fuel Δ o t fuel h, fun hr => gen_no_diverge Δ o t hr fuel⟩
+
+/-! ### the tables read off the source (regenerated by every run: go/cmd/extract, table GenKinds) -/
+
+/-- the translator could read every case of the kind switch, every tag access and the option structs -/
+theorem gen_tables_read : Gen.genUnrecognised = [] := by decide
+
+/-- the kind switch of generateWithoutSaving — type, format, minimum, maximum per kind, the bounds resolved from the
+package's constants (`float64(math.MaxUint64)` is 2^64) — is the model's table … -/
+theorem genKinds_is_model : Gen.genKinds = modelKinds := by decide
+
+/-- … and that table is what the model's `genBody` produces for each of these kinds -/
+theorem modelKinds_is_genBody (r : GoType × String × String × String × Option Int × Option Int) (hr : r ∈ modelKindsT)
+    (nl : Bool) : (genBody [] {} 1 [] true "_root" nl r.1 {}).1 = .ok (leaf r.2.2.1 nl r.2.2.2.1 r.2.2.2.2.1 r.2.2.2.2.2) := by
+  simp only [modelKindsT, allIntKinds, List.map, List.cons_append, List.nil_append, List.mem_cons, List.not_mem_nil, or_false] at hr
+  rcases hr with rfl | rfl | rfl | rfl | rfl | rfl | rfl | rfl | rfl | rfl | rfl | rfl | rfl | rfl <;> rfl
+
+/-- the kinds with code of their own are the ones modelled by hand (Func/Chan are outside the supported kinds) -/
+theorem genKindsOther_is_model : Gen.genKindsOther = modelKindsOther := by decide
+
+/-- the struct tags openapi3gen reads (`json` in appendFields, `yaml` in the struct loop under UseAllExportedFields) and
+the `json` options it recognises are the ones in the model (`FMeta`) -/
+theorem genTags_is_model : Gen.genTagKeys.map (·.2.1) = modelTagKeys ∧ Gen.genTagOptions = modelTagOptions := by decide
+
+/-- the option set of the generator is the one in the model (`Opts`) -/
+theorem genOpts_is_model : Gen.genOptFields = modelOptFields := by decide
 
 /-- The integer bounds table admits every value of the kind (all ten kinds, extremes included). -/
 theorem int_bounds_admit (k : IntKind) (n : Int) (h : inRange k n = true) :
